@@ -322,7 +322,7 @@ get_line_locked(kdump_ctx_t *ctx, const char *key, char **val)
 		return status;
 
 	attr = lookup_dir_attr(ctx->dict, base, key, strlen(key));
-	if (!attr)
+	if (!attr || attr->template->type != KDUMP_STRING)
 		return set_error(ctx, KDUMP_ERR_NODATA,
 				 "No such VMCOREINFO line");
 
@@ -374,7 +374,7 @@ kdump_vmcoreinfo_symbol(kdump_ctx_t *ctx, const char *symname,
 		goto out;
 
 	attr = lookup_dir_attr(ctx->dict, base, symname, strlen(symname));
-	if (!attr) {
+	if (!attr || attr->template->type != KDUMP_ADDRESS) {
 		ret = set_error(ctx, KDUMP_ERR_NODATA, "Symbol not found");
 		goto out;
 	}
